@@ -52,7 +52,7 @@ def translate(row, sid, cfg=None):
             continue
         k = r['k']
         t = ticks(r['t'])
-        if t != now and k not in ('final',):
+        if t != now and k not in ('final', 'accessors'):
             out.append(f'tick {t}')
             now = t
         if k == 'init':
@@ -139,6 +139,8 @@ def translate(row, sid, cfg=None):
                 wal = int(bool(prev and prev['k'] == 'walWrite' and not prev.get('ok', True) and prev.get('e') == r['e']))
                 out.append(f"oProcessRaised {r['b']} {r['e']} {r['why']} {wal}")
             out.append(f"peAbort {r['p']} {r['b']} {r['e']}")
+        elif k == 'accessors':
+            out.append(f"oAccessors {r['e']} {int(bool(r['changed']))}")
         elif k == 'awaitBegin':
             out.append(f"awaitBegin {r['i']} {r['e']}")
         elif k == 'awaitEnd':
